@@ -45,6 +45,7 @@ type bgLine struct {
 
 // Obl is one proof obligation: under the background visible at creation and Guard, Goal must hold.
 type Obl struct {
+	OpaqueSpec bool // VarintEnd/VarintVal are left uninterpreted in this query
 	Name   string
 	Kind   string
 	Guard  string
@@ -344,7 +345,21 @@ func (o *Obl) script(extra string) string {
 	c := o.ctx
 	var sb strings.Builder
 	sb.WriteString("(set-option :produce-models true)\n")
-	sb.WriteString(c.preamble())
+	if o.OpaqueSpec {
+		// the goal follows from the assumed (separately proved) loop summaries by congruence: the wire spec functions
+		// stay uninterpreted here, which keeps the query small
+		for _, l := range strings.SplitAfter(c.preamble(), "\n") {
+			switch {
+			case strings.HasPrefix(l, "(define-fun VarintEnd ("):
+				l = "(declare-fun VarintEnd ((Array (_ BitVec 64) (_ BitVec 8)) (_ BitVec 64)) (_ BitVec 64))\n"
+			case strings.HasPrefix(l, "(define-fun VarintVal ("):
+				l = "(declare-fun VarintVal ((Array (_ BitVec 64) (_ BitVec 8)) (_ BitVec 64)) (_ BitVec 64))\n"
+			}
+			sb.WriteString(l)
+		}
+	} else {
+		sb.WriteString(c.preamble())
+	}
 	pre := c.pre
 	if pre == "" {
 		pre = "true"
